@@ -440,7 +440,7 @@ func run(c *vf.Ctx) {
 			evalCase(c, g[k])
 		}
 	})
-	nr := c.N(200000, 4000000)
+	nr := c.N(200000, 2500000)
 	c.Parallel(nr/chunk, workers, 100000, func(_ int, r *rand.Rand) {
 		for k := 0; k < chunk; k++ {
 			evalCase(c, randCase(r))
